@@ -431,7 +431,10 @@ class LangServer:
                 )
                 # Traverse USE tree and add to list
                 if not no_use:
-                    use_dict = get_use_tree(scope, use_dict, self.obj_tree)
+                    # A module whose public members are wanted is seen from outside
+                    use_dict = get_use_tree(
+                        scope, use_dict, self.obj_tree, from_outside=public_only
+                    )
             # Look in found use modules
             rename_list = [None for _ in var_list]
             import_var_list = []
